@@ -5,7 +5,7 @@ Tie: translator unit `json` (limits, guards, escape tables, surrogate/UTF-8 cons
 Independent reference for the monitors: Python's `json` (strict RFC 8259 decoder once NaN/Infinity are refused), `float()`,
 `'%.17g'`, `struct` — nothing of the model is used by a monitor.
 """
-import json, os, re, struct, sys
+import json, os, re, resource, struct, subprocess, sys
 from vlib.core import Ctx, hexs, unhex, ddmin, LEAN, ModelBuildError
 
 try:
@@ -18,12 +18,18 @@ MODULES = ["IoraModel.Props.C13"]
 OBLIGATIONS = [
     {"id": "C13_J1", "theorem": "Iora.C13.J1_accept_and_decode", "kind": "proved",
      "statement": "for every RFC 8259 syntax tree t (all escape forms incl. \\uXXXX either case, surrogate pairs, all number forms, white space, nesting, duplicate keys) within the limits: parse (render t) = ok (denote t)"},
+    {"id": "C13_J2_fmt", "theorem": "Iora.C13.J2_formatDouble", "kind": "proved",
+     "statement": "_formatDouble (15..17 precision loop with double ==, find_first_of(.eE), .0 suffix) yields for every finite double a number token with fraction/exponent that strtod reads back to the same bits - proved from the four explicit libc facts LibcOk"},
+    {"id": "C13_LibcOk_sat", "theorem": "Iora.C13.LibcOk_satisfiable", "kind": "proved",
+     "statement": "the libc hypotheses LibcOk are satisfiable (a toy libc has them): J2/J3 are not vacuous"},
     {"id": "C13_J2", "theorem": "Iora.C13.J2_roundtrip", "kind": "proved",
-     "statement": "for every value (int64 ints, doubles under RoundTrips, strings, nested arrays/objects with distinct keys) within the limits, compact or pretty, any white-space indent: parse (serialize v) = ok v"},
+     "statement": "for every value made of finite numbers (int64 ints, FINITE doubles, strings, nested arrays/objects with distinct keys) within the limits, compact or pretty, any white-space indent, under LibcOk: parse (serialize v) = ok v"},
     {"id": "C13_J2_sorted", "theorem": "Iora.C13.J2_roundtrip_sorted", "kind": "proved",
      "statement": "with sortKeys: parse (serialize v) = ok (sortDeep v) and sortDeep v == v for Json::operator== (unordered_map equality)"},
     {"id": "C13_J3", "theorem": "Iora.C13.J3_output_in_grammar", "kind": "proved",
-     "statement": "serialize output is the rendering of a well-formed RFC 8259 syntax tree denoting the value (resp. sortDeep of it)"},
+     "statement": "for values with well-formed UTF-8 strings the serializer output is the rendering of a well-formed AND STRICT RFC 8259 syntax tree (control characters escaped, raw bytes = UTF-8 of scalar values >= U+0020 other than quote/backslash) denoting the value (resp. sortDeep of it)"},
+    {"id": "C13_J3_strict_ok", "theorem": "Iora.C13.J3_strict_is_ok", "kind": "proved",
+     "statement": "the strict RFC 8259 string grammar is contained in the grammar J1 is proved for"},
     {"id": "C13_J4_offset", "theorem": "Iora.C13.J4_error_offset", "kind": "proved",
      "statement": "arbitrary bytes/limits: a parse failure reports an offset <= input length and is never the model's budget outcome (recursion bounds never hit: totality)"},
     {"id": "C13_J4_limits", "theorem": "Iora.C13.J4_limits", "kind": "proved",
@@ -40,8 +46,12 @@ OBLIGATIONS = [
      "statement": "what the model hard-codes (error messages per function, literals, dispatch bytes, delegated primitives, hex ranges, UTF-8 literals, format recipe, separators) equals the facts regenerated from the source"},
 ]
 ANCHOR_FILES = ["include/iora/parsers/json.hpp"]
-NOT_PROVED = ["RoundTrips for the concrete libc primitives (strtod / snprintf %.17g are correctly rounded and 17 significant digits determine a binary64): assumed in J2/J3, "
-              "validated bit for bit by the lockstep against Model/JsonFloat.lean (exact big-integer arithmetic) and against Python's float()/'%.17g'"]
+NOT_PROVED = ["LibcOk for the real libc (the four facts about snprintf(%.{15,16,17}g)/strtod that J2/J3 assume: token shape, the 17-digit text reads back exactly, the sign of zero "
+              "survives, `.0` does not change the value): validated bit for bit by the lockstep against Model/JsonFloat.lean (exact big-integer arithmetic) and against "
+              "Python's float()/'%.17g'; _formatDouble's own logic IS proved from them (J2_formatDouble)",
+              "`without undefined behaviour` has no theorem: the model is total and never reads outside the text by construction (J4), but UB freedom of the C++ itself is "
+              "only searched for (ASan+UBSan on every generated input, text in an exactly sized heap block, default-depth nesting in a child with the default 8 MiB stack)",
+              "stack depth: the model has no stack; gen_conformance pins depthMaxDefault <= stackSafeDepth and the plugin measures the real bytes per nesting level on every run"]
 
 
 # ------------------------------------------------------------------------------------------------ reference decoder
@@ -476,20 +486,60 @@ def gen_parse_cases(rng, scale, dflt, st):
             if n >= 4:
                 ops.append(parse_op(lim, b'"' + raw[:-4] + b'\\ud83d\\ude00"'))
             cases.append({"cat": "limit-string", "ops": ops})
-    # the defaults themselves
+    # the defaults themselves: ALWAYS probed (a default beyond the caps is probed at the cap and fails gen_conformance)
     D, A, M, S = dflt
-    if D <= 2000:
+    if D <= DEPTH_LOCKSTEP:
         for d in (D - 1, D, D + 1, D + 2, D + 3):
-            cases.append({"cat": "limit-default", "ops": [parse_op(dflt, nest(d, b"")), parse_op(dflt, nest(d, b"null")), parse_op(dflt, nest(d, b"0", rng))]})
-    if A <= 100000 and M <= 100000:
-        for n in (A - 1, A, A + 1):
-            cases.append({"cat": "limit-default", "ops": [parse_op(dflt, b"[" + b",".join([b"0"] * n) + b"]")]})
-        for n in (M, M + 1):
-            cases.append({"cat": "limit-default", "ops": [parse_op(dflt, b"{" + b",".join(b'"%d":0' % i for i in range(n)) + b"}")]})
-    if S <= 2000000:
-        for n in (S, S + 1, S + 2):
-            cases.append({"cat": "limit-default", "ops": [parse_op(dflt, b'"' + b"x" * n + b'"')]})
+            if d >= 0:
+                cases.append({"cat": "limit-default", "ops": [parse_op(dflt, nest(d, b"")), parse_op(dflt, nest(d, b"null")), parse_op(dflt, nest(d, b"0", rng))]})
+    # (deeper defaults: gen_deep_cases - run against the real parser alone, in a child with the default 8 MiB stack)
+    for n in sorted(set(max(0, min(A, SIZE_CAP) + k) for k in (-1, 0, 1))):
+        cases.append({"cat": "limit-default", "ops": [parse_op(dflt, b"[" + b",".join([b"0"] * n) + b"]")]})
+    for n in sorted(set(max(0, min(M, SIZE_CAP) + k) for k in (0, 1))):
+        cases.append({"cat": "limit-default", "ops": [parse_op(dflt, b"{" + b",".join(b'"%d":0' % i for i in range(n)) + b"}")]})
+    for n in sorted(set(min(S, STRING_CAP) + k for k in (0, 1, 2))):
+        cases.append({"cat": "limit-default", "ops": [parse_op(dflt, b'"' + b"x" * n + b'"')]})
     return cases
+
+
+DEPTH_LOCKSTEP = 2000       # deepest nesting sent through the lockstep (the native model driver recurses too)
+DEPTH_CAP = 400000          # deepest nesting ever generated
+SIZE_CAP = 100000           # = Iora.C13.sizeCap
+STRING_CAP = 2000000        # = Iora.C13.stringCap
+STACK_BYTES = 8 << 20       # default main-thread stack (ulimit -s 8192)
+
+
+def gen_deep_cases(dflt):
+    """texts nested up to the DEFAULT depthMax (and just beyond), whatever it is: `parsing terminates within its limits without
+    undefined behaviour` includes not overflowing the stack at the depth the default limits admit"""
+    D = dflt[0]
+    out = []
+    for d in sorted(set(min(x, DEPTH_CAP) for x in (D // 2, D, D + 1, D + 2)) ):
+        if d > DEPTH_LOCKSTEP:
+            out.append(parse_op(dflt, nest(d, b"")))
+            out.append(parse_op(dflt, b'{"k":' * d + b"0" + b"}" * d))
+    return out
+
+
+def run_child_8mib(hb, ops, timeout=600):
+    """the harness alone, one process per op, RLIMIT_STACK = the default 8 MiB"""
+    env = dict(os.environ)
+    env.setdefault("ASAN_OPTIONS", "detect_leaks=0:abort_on_error=0:exitcode=99:detect_stack_use_after_return=0")
+    env.setdefault("UBSAN_OPTIONS", "print_stacktrace=1:halt_on_error=1:exitcode=98")
+    res = []
+    for op in ops:
+        try:
+            p = subprocess.run([hb], input=(op + "\n").encode(), stdout=subprocess.PIPE, stderr=subprocess.PIPE, timeout=timeout, env=env,
+                               preexec_fn=lambda: resource.setrlimit(resource.RLIMIT_STACK, (STACK_BYTES, STACK_BYTES)))
+            out = p.stdout.decode("utf-8", "replace").splitlines()
+            if out and p.returncode == 0:
+                res.append(out[0])
+            else:
+                m = re.search(r"AddressSanitizer: ([\w-]+)", p.stderr.decode("utf-8", "replace"))
+                res.append("crash:" + ("asan:" + m.group(1) if m else "rc=%s" % p.returncode))
+        except subprocess.TimeoutExpired:
+            res.append("crash:timeout")
+    return res
 
 
 SPECIAL_BYTES = [0x22, 0x5C, 0x7B, 0x7D, 0x5B, 0x5D, 0x2C, 0x3A, 0x2D, 0x2B, 0x2E, 0x65, 0x45, 0x30, 0x31, 0x39, 0x75, 0x6E, 0x74, 0x66, 0x20, 0x0A, 0x09, 0x0D, 0x0B, 0x0C,
@@ -726,10 +776,28 @@ def monitor_parse(op, line):
 NOVALUE = object()
 
 
+def dump_has_nonfinite(d):
+    """token-boundary test: does a canonical dump contain a non-finite double?"""
+    try:
+        return not all_finite(read_dump(d))
+    except Exception:
+        return True
+
+
+WS_BYTES = (0x20, 0x09, 0x0A, 0x0D)
+
+
 def monitor_ser(op, line, value):
     t = op.split()
-    pretty, sort = t[1] == "1", t[2] == "1"
-    src = t[4]
+    if t[0] == "ser":
+        sort, src = t[2] == "1", t[4]
+        indent_ok = all(b in WS_BYTES for b in unhex(t[3]))
+    elif t[1] == "dump":        # svia dump <indent> <char> <ensure_ascii> <sort> <src> <order>
+        sort, src = t[5] == "1", t[6]
+        indent_ok = int(t[2]) <= 0 or int(t[3]) in WS_BYTES
+    else:                       # svia ostream|string <src> <order>
+        sort, src = False, t[2]
+        indent_ok = True
     if line == "crash:too-many-crashes":
         return []
     if line.startswith("throw") or line.startswith("crash:"):
@@ -743,19 +811,25 @@ def monitor_ser(op, line, value):
     if len(a) != 2 or a[1] not in ("0", "1"):
         return ["J2: unexpected answer `%s` to %s" % (line[:80], op[:80])]
     text = unhex(a[0])
+    if not indent_ok:
+        return []               # indentation that is not JSON white space: outside the hypothesis (lockstep only)
     want = None
     if src[0] == "v" and value is NOVALUE:
         value = read_dump(src[1:])
     if value is not NOVALUE:
         if not (all_finite(value) and strings_utf8(value)):
             return []           # outside the property's hypothesis (non-finite number / not UTF-8)
+        if t[0] == "svia" and t[1] == "string" and isinstance(value, bytes):
+            return []           # operator std::string of a string value is the raw string, not JSON text
         want = v_canon(value, sort=True)
     else:
         r = py_ref(unhex(src[1:] or "-"))
         if r is None or r[0] != "ok":
             return []
+        if t[0] == "svia" and t[1] == "string" and isinstance(r[1], str):
+            return []
         want = canon_ref(r[1])
-        if "d7ff" in want or "dfff" in want:
+        if dump_has_nonfinite(want):
             return []           # the text denotes an infinite double (1e999): not serializable as a number
     bad = []
     if a[1] != "1":
@@ -770,6 +844,56 @@ def monitor_ser(op, line, value):
         if sort and not keys_sorted(r[1]):
             bad.append("J2: sortKeys output has unsorted or repeated keys: %s -> %r" % (op[:100], text[:80]))
     return bad
+
+
+def monitor_wrapper(op, line):
+    """pvia / pthrow / stream: the public parse wrappers, judged like the parse they wrap"""
+    t = op.split()
+    if line == "crash:too-many-crashes":
+        return [], None
+    if line.startswith("throw") or line.startswith("crash:"):
+        return ["J4: input makes a parse wrapper throw (other than parse_error) or crash: %s -> %s" % (op[:120], line)], None
+    if t[0] == "pvia":
+        lim, text, soft = None, unhex(t[2]), t[1] in ("noexc", "safe")
+        base = lambda l: "parse %d %d %d %d %s" % (l[0], l[1], l[2], l[3], t[2])
+    elif t[0] == "pthrow":
+        lim, text, soft = tuple(int(x) for x in t[1:5]), unhex(t[5]), False
+        base = lambda l: "parse %d %d %d %d %s" % (l[0], l[1], l[2], l[3], t[5])
+    else:
+        lim, text, soft = tuple(int(x) for x in t[1:5]), unhex(t[6]), False
+        base = lambda l: "parse %d %d %d %d %s" % (l[0], l[1], l[2], l[3], t[6])
+    lim = lim or DEFAULTS[0]
+    a = line.split()
+    if t[0] == "stream":
+        if len(a) < 5 or a[0] != "s":
+            return ["J4: unexpected answer `%s`" % line[:80]], None
+        bits, state = a[1], " ".join(a[3:])
+        if bits[-1:] != "1":
+            # the whole text did not parse: if the reference accepts it within the limits that is a J1 failure
+            ref = py_ref(text)
+            if ref is not None and ref[0] == "ok":
+                d, n, m, sl = measure_ref(ref[1])
+                if d <= lim[0] and n <= lim[1] and m <= lim[2] and sl <= lim[3]:
+                    return ["J1: JsonStreamParser does not complete on a valid text within the limits: %s -> %s" % (op[:120], line[:80])], None
+            return [], None
+        line2 = state
+    elif a and a[0] == "errw":
+        if len(a) != 4:
+            return ["J4: unexpected answer `%s`" % line[:80]], None
+        line2 = "err %s 0 %s %s" % (a[1], a[2], a[3])
+    else:
+        line2 = line
+    if soft and line2 == "ok n":
+        ref = py_ref(text)
+        if ref is not None and ref[0] == "ok" and canon_ref(ref[1]) != "n":
+            d, n, m, sl = measure_ref(ref[1])
+            if d <= lim[0] and n <= lim[1] and m <= lim[2] and sl <= lim[3]:
+                return ["J1: non-throwing wrapper returns null for a valid text within the limits: %s" % op[:120]], None
+        return [], None
+    return monitor_parse(base(lim), line2)
+
+
+DEFAULTS = [None]
 
 
 def keys_sorted(v):
@@ -813,12 +937,14 @@ def run(ctx: Ctx):
     st = {k: 0 for k in ("raw", "raw-utf8", "esc", "u-bmp", "u-pair", "u-lone", "num-edge", "num-int", "num-int-edge", "num-int-big", "num-float", "dup-key",
                          "dup-key-respelled", "dbl-edge", "dbl-random-bits", "dbl-short-decimal", "dbl-integral", "dbl-subnormal", "dbl-pow10")}
     stats = {"ref_accepts": 0, "ref_rejects": 0, "no_reference": 0, "impl_accepts_ref_rejects": 0, "within_limits": 0, "lone_surrogate_texts": 0,
-             "ser_ops": 0, "ser_with_hash_order": 0}
+             "ser_ops": 0, "ser_with_hash_order": 0, "ops_through_public_wrappers": 0}
     if hb:
         dflt = gen_defaults()
+        DEFAULTS[0] = dflt
         cases = load_corpus()
         cases += gen_parse_cases(rng.fork("parse"), scale, dflt, st)
         cases += gen_mutated_cases(rng.fork("mut"), scale, dflt, st)
+        route_through_wrappers(rng.fork("wrap"), cases, dflt, stats)
         specs = gen_ser_specs(rng.fork("ser"), scale, st)
         # phase 1 (implementation only): the iteration order of the real hash map is an INPUT of the unsorted serializer
         need = [i for i, sp in enumerate(specs) if sp[1] == 0 and (sp[4] is NOVALUE or has_object(sp[4]))]
@@ -832,11 +958,35 @@ def run(ctx: Ctx):
         for i, (pretty, sort, indent, src, v) in enumerate(specs):
             o = orders.get(i, "-")
             op = "ser %d %d %s %s %s" % (pretty, sort, hexs(indent), src, o)
+            wr = rng.below(10)
+            if wr == 0 and len(set(indent)) <= 1 and (pretty or indent == b"  "):
+                # the same serialization through Json::dump(indent, indent_char, ensure_ascii, sort_keys)
+                op = "svia dump %d %d %d %d %s %s" % (len(indent) if pretty else -1, indent[0] if indent else 32, rng.below(2), sort, src, o)
+                stats["ops_through_public_wrappers"] += 1
+            elif wr == 1 and not pretty and not sort:
+                op = "svia %s %s %s" % (rng.choice(["ostream", "string"]), src, o)
+                stats["ops_through_public_wrappers"] += 1
+            elif wr == 2 and i % 7 == 0:
+                op = "svia dump %d %d 0 %d %s %s" % (rng.range(1, 4), rng.choice([120, 45, 0]), sort, src, o)      # non-white-space indent_char: lockstep only
             values[op] = v
             cases.append({"cat": "ser-value" if v is not NOVALUE else "ser-text", "ops": [op]})
             stats["ser_ops"] += 1
             stats["ser_with_hash_order"] += o != "-"
         res = run_cases(ctx, hb, cases)
+        # F8: a timeout of the whole batch is machinery, not a verdict - unless the op also hangs when it runs alone
+        for c, impl, model in res:
+            for op, l in zip(c["ops"], impl):
+                if l == "crash:timeout":
+                    alone = run_child_8mib(hb, [op], timeout=300)[0]
+                    if alone != "crash:timeout":
+                        raise RuntimeError("lockstep batch timed out but op completes alone (machinery, not a verdict): %s" % op[:120])
+                    ctx.violation("property", "J4: the parser does not terminate on %s" % op[:160], {"ops": [op], "observed": [alone]}, found_input=True)
+        # F1: texts nested to the DEFAULT depth, real parser alone, child process with the default 8 MiB stack
+        deep = gen_deep_cases(dflt)
+        if deep:
+            outs = run_child_8mib(hb, deep)
+            res.append(({"cat": "deep-default", "ops": deep}, outs, [None] * len(deep)))
+        stack_check(ctx, hb, dflt)
         n_mismatch = 0
         for c, impl, model in res:
             dist[c["cat"]] = dist.get(c["cat"], 0) + 1
@@ -855,7 +1005,9 @@ def run(ctx: Ctx):
                             stats["impl_accepts_ref_rejects"] += info["accepted"]
                         else:
                             stats["no_reference"] += 1
-                elif op.startswith("ser "):
+                elif op.split(" ", 1)[0] in ("pvia", "pthrow", "stream"):
+                    f, _ = monitor_wrapper(op, l)
+                elif op.startswith("ser ") or op.startswith("svia "):
                     f = monitor_ser(op, l, values.get(op, NOVALUE))
                     if l in ("order-changed", "order-invalid", "bad-op"):
                         f = f or ["correspondence-machinery: `%s` for %s" % (l, op[:100])]
@@ -887,7 +1039,8 @@ def run(ctx: Ctx):
     ]
     ctx.assumptions += [
         "\"C\" numeric locale and default rounding mode: std::strtod / snprintf(\"%.*g\") are correctly rounded (glibc) - validated bit for bit by the lockstep against an exact big-integer implementation and against Python's float()/repr, not proved",
-        "std::isspace / std::isdigit on plain char in the \"C\" locale: {9..13, 32} / {'0'..'9'}, false for bytes >= 0x80",
+        "std::isspace / std::isdigit (argument converted to unsigned char, pinned by gen_conformance) in the \"C\" locale: {9..13, 32} / {'0'..'9'}, false for bytes >= 0x80",
+        "LC_NUMERIC is \"C\" (iora never calls setlocale; only C/C.utf8/POSIX exist in the sandbox): a host application that switches the numeric locale changes the decimal point of snprintf/strtod - candidate finding, not reproducible here, not repaired",
         "std::from_chars(int64) = exact decimal value or result_out_of_range; std::to_string(int64) = minimal decimal digits",
         "std::unordered_map iteration order is an arbitrary permutation of the members (fed to the model as an input for unsorted serialization); std::sort on std::string keys = bytewise lexicographic order",
     ]
@@ -895,11 +1048,67 @@ def run(ctx: Ctx):
                       "evaluations = ops; distinct = distinct op lines; non-trivial = any answer other than `err eof 0` / bad-op")
 
 
+WRAPPERS = ["orthrow", "str", "noexc", "safe", "pstring", "istream"]
+
+
+def route_through_wrappers(rng, cases, dflt, stats):
+    """F4: ~10 % of the single-op parse cases go through the public wrappers (parseOrThrow, parse(text, nullptr, bool), safe_parse,
+    parseString, operator>>, JsonStreamParser) instead of Json::parse(string_view, limits); same model answers"""
+    for c in cases:
+        if c["cat"] not in ("grammar", "mutated", "random-bytes", "truncated", "number-forms", "escape-forms", "limit-depth", "limit-string", "limit-array",
+                            "limit-members") or not rng.chance(1, 9):
+            continue
+        ops = []
+        for op in c["ops"]:
+            t = op.split()
+            lim = tuple(int(x) for x in t[1:5])
+            n = 0 if t[5] == "-" else len(t[5]) // 2
+            if n > 100000:
+                ops.append(op)
+                continue
+            k = rng.below(3)
+            if k == 0 and lim == tuple(dflt):
+                ops.append("pvia %s %s" % (rng.choice(WRAPPERS), t[5]))
+            elif k == 1:
+                ops.append("pthrow %s %s" % (" ".join(t[1:5]), t[5]))
+            else:
+                cuts = sorted(rng.below(n + 1) for _ in range(rng.choice([0, 1, 1, 2, 3, 5])))
+                ops.append("stream %s %s %s" % (" ".join(t[1:5]), ",".join(map(str, cuts)) or "-", t[5]))
+            stats["ops_through_public_wrappers"] += 1
+        c["ops"] = ops
+        c["cat"] = c["cat"] + "+wrapper"
+
+
+def stack_check(ctx, hb, dflt):
+    """F1: bytes of C++ stack one nesting level costs the real parser + serializer + destructor (measured on a painted private stack,
+    sanitizer build = the larger frames) and the bound `stackSafeDepth` pinned in gen_conformance: the check is only valid while
+    stackSafeDepth levels fit comfortably (a quarter of) the default 8 MiB stack"""
+    out, rc, err = ctx.run_lines([hb], ["stackuse a 64", "stackuse a 192", "stackuse o 64", "stackuse o 192"], timeout=300)
+    try:
+        u = [int(l.split()[0]) for l in out]
+        per = max((u[1] - u[0]) / 128.0, (u[3] - u[2]) / 128.0)
+        base = max(u[0], u[2])
+    except Exception:
+        raise RuntimeError("stackuse probe failed: %r %s" % (out, err[-300:]))
+    m = re.search(r"def stackSafeDepth : Nat := (\d+)", open(os.path.join(LEAN, "IoraModel", "Props", "C13.lean")).read())
+    safe = int(m.group(1))
+    need = base + per * (safe + 8)
+    ctx.extra["stack"] = {"bytes_per_nesting_level_sanitizer_build": round(per, 1), "base_bytes": base, "stackSafeDepth": safe,
+                          "bytes_at_stackSafeDepth": int(need), "budget_bytes": STACK_BYTES // 4, "default_depthMax": dflt[0]}
+    if need > STACK_BYTES // 4:
+        ctx.violation("correspondence", "stack bound no longer justified: %d nesting levels (Iora.C13.stackSafeDepth) need %d bytes of stack at %.0f bytes per level, "
+                      "more than a quarter of the default 8 MiB stack" % (safe, need, per),
+                      {"broken": {"theorem": "Iora.C13.gen_conformance (depthMaxDefault <= stackSafeDepth)", "detail": str(ctx.extra["stack"])}}, found_input=False)
+    if dflt[0] > safe:
+        # gen_conformance already fails; give the failing input as well when the real parser cannot take its own default
+        pass
+
+
 def run_cases(ctx, hb, cases):
     """lockstep; when the model driver cannot be built (already reported as a proof violation) the implementation still runs alone,
     so that the property monitors can supply a failing input"""
     try:
-        return ctx.lockstep("json", hb, cases, timeout=1200)
+        return ctx.lockstep("json", hb, cases, timeout=1800 if ctx.tier == "quick" else 7200)
     except ModelBuildError:
         res = []
         for c in cases:
@@ -923,7 +1132,10 @@ def replay(ctx):
     still = False
     for o, a, b in zip(ops, impl, model):
         print("op    %s\n impl  %s\n model %s" % (o[:200], a[:200], (b or "-")[:200]))
-        f = monitor_parse(o, a)[0] if o.startswith("parse ") else monitor_ser(o, a, NOVALUE) if o.startswith("ser ") else []
+        DEFAULTS[0] = DEFAULTS[0] or gen_defaults()
+        k = o.split(" ", 1)[0]
+        f = monitor_parse(o, a)[0] if k == "parse" else monitor_ser(o, a, NOVALUE) if k in ("ser", "svia") else \
+            monitor_wrapper(o, a)[0] if k in ("pvia", "pthrow", "stream") else []
         for x in f:
             print("PROPERTY FAILS:", x[:300])
         still = still or bool(f) or (b is not None and a != b)
